@@ -187,18 +187,24 @@ func recordArtifacts(paths []string, hashAlgorithms []string, gitignorePatterns 
 					// if we visit a symlink twice, we have detected a symlink cycle
 					visitedSymlinks.Add(path)
 					// We recursively call recordArtifacts() to follow
-					// the new path.
-					evalArtifacts, evalErr := recordArtifacts([]string{evalSym}, hashAlgorithms, gitignorePatterns, lStripPaths, lineNormalization, followSymlinkDirs)
+					// the new path. The artifacts are named after the symlink
+					// and not after its target, hence prefixes are stripped
+					// from the names below and not in the recursive call.
+					evalArtifacts, evalErr := recordArtifacts([]string{evalSym}, hashAlgorithms, gitignorePatterns, nil, lineNormalization, followSymlinkDirs)
 					if evalErr != nil {
 						return evalErr
 					}
 					for key, value := range evalArtifacts {
+						symlinkPath := path
 						if targetIsDir {
-							symlinkPath := filepath.Join(path, strings.TrimPrefix(key, evalSym))
-							artifacts[symlinkPath] = value
-						} else {
-							artifacts[path] = value
+							symlinkPath = filepath.Join(path, strings.TrimPrefix(key, evalSym))
 						}
+						symlinkPath = lStripPath(symlinkPath, lStripPaths)
+						// Check if path is unique
+						if _, exists := artifacts[symlinkPath]; exists {
+							return fmt.Errorf("left stripping has resulted in non unique dictionary key: %s", symlinkPath)
+						}
+						artifacts[symlinkPath] = value
 					}
 					return nil
 				}
@@ -209,12 +215,7 @@ func recordArtifacts(paths []string, hashAlgorithms []string, gitignorePatterns 
 					return err
 				}
 
-				for _, strip := range lStripPaths {
-					if strings.HasPrefix(path, strip) {
-						path = strings.TrimPrefix(path, strip)
-						break
-					}
-				}
+				path = lStripPath(path, lStripPaths)
 				// Check if path is unique
 				if _, exists := artifacts[path]; exists {
 					return fmt.Errorf("left stripping has resulted in non unique dictionary key: %s", path)
@@ -229,6 +230,16 @@ func recordArtifacts(paths []string, hashAlgorithms []string, gitignorePatterns 
 	}
 
 	return artifacts, nil
+}
+
+// lStripPath removes the first of the passed prefixes that the passed path has.
+func lStripPath(path string, lStripPaths []string) string {
+	for _, strip := range lStripPaths {
+		if strings.HasPrefix(path, strip) {
+			return strings.TrimPrefix(path, strip)
+		}
+	}
+	return path
 }
 
 /*
